@@ -59,6 +59,12 @@ CHECKS = {
  "C06": dict(cat="exploration", technique="differential codec monitor (independent mqttx codec), structure-aware + mutation + random + length-bomb generators, framing/allocation/hang monitors, exhaustive string predicates",
    text="Millions of generated inputs (well-formed packets of all 15 types and 3 versions with every property, byte-level mutations, raw bytes, tiny inputs declaring huge lengths) are fed to gmqtt's decoder under recover, a 10 s hang watchdog, a counting reader with a trailer packet (framing) and a TotalAlloc monitor (allocation bound); accepted packets are re-encoded and re-decoded; well-formed values are cross-encoded/decoded with an independent codec; reported sizes are compared with encoded lengths; validity predicates are compared exhaustively on all strings up to length 6 over a hostile alphabet.",
    note="trusted: mqttx (written from the OASIS specs, own test-suite); leniency outside the explicit malformed classes is counted, not judged; 20 low-severity codec findings are listed as known", ref="§5 C06"),
+ "C16": dict(cat="exploration", technique="ordering / exactly-once monitor over an applied-event trace (hook after duplicate suppression) under scripted stream faults from a TCP fault proxy",
+   text="Pairs of real nodes federated through serf and gRPC on loopback; the emitter's stream crosses a proxy that cuts all connections, cuts after n more bytes in either direction (thorough: every offset 1..600 of a re-established stream), black-holes traffic and cuts again during the resend; the receiver's applied-event trace must contain every emitted subscribe/unsubscribe/message event exactly once in emission order within 15 s after the last fault, views must converge, forwarded messages reach the subscriber once; node replacement exercises the full resynchronisation.",
+   note="needs the verif hooks of plugin/federation; bounded progress 15 s; serf membership trusted", ref="§5 C16"),
+ "C17": dict(cat="exploration", technique="routing monitor over applied-event traces of three federated nodes + wire-level conservation of copies (subscription identifiers)",
+   text="Generated subscription distributions over three real federated nodes (plain, wildcard, $-topics, share groups spanning nodes) and unique publishes from any node: forwarded once to exactly the nodes with a matching non-shared subscription, never to nodes without a match, never back or onward; every matching non-shared subscriber gets one copy at min QoS; exactly one member per share group in the federation; retained messages reach and update (or clear) every node's retained store.",
+   note="views converged before publishing (logical barrier); per-peer streams FIFO; known findings: share-group handling in sendMessage", ref="§5 C17"),
 }
 
 def main():
